@@ -60,6 +60,15 @@ POOLS = {
     "negzero": [-1, "1", (1,), 1.5],
     "falsy": [(), 0, "", None],          # every label is falsy in Python; () is also numpy's "select all"
 }
+ROT_POOLS = sorted(POOLS)       # rotated over the instances of the 4-atom families
+# 6-label pools of the fibre family (supports of up to 6 events)
+POOLS.update({
+    "str6": ["a", "b", "c", "d", "e", "f"],
+    "int6": [0, 1, 2, 3, 4, 5],
+    "mixed6": ["a", 3, ("x", 1), frozenset({2}), None, 2.5],
+    "falsy6": [(), 0, "", None, 0.5, "x"],
+})
+POOLS6 = ["falsy6", "int6", "mixed6", "str6"]
 
 
 # --------------------------------------------------------------------------------------------
@@ -122,6 +131,7 @@ def fix_rec(r):
 
 def fix_inst(inst):
     inst.setdefault("OPS", list(OPS))
+    inst.setdefault("FIBK", [])
     fix_rec(inst["init"])
     for r in inst["O"]:
         fix_rec(r)
@@ -275,6 +285,8 @@ def o_tiny_after(inst, D, tn, sc2, op, j, a, post):
 def o_args(inst, D, op, j):
     n = len(D)
     if op == "marg":
+        if isinstance(j, tuple):                     # fibre family: the menu entry is the projection table
+            return [(j[i],) for i in range(n)]
         return [(at(inst["F"][j], i),) for i in range(n)]
     if op == "chain":
         return [o_distof(at(inst["K"][j], i)) for i in range(n)]
@@ -350,6 +362,17 @@ def menu(inst, op):
             "shift": len(inst["C"])}[op]
 
 
+def menu_keys(inst, D, op):
+    """Menu entries of an operation in the state D: 1-based indices, or (fibre family, marg) every
+    surjection of the support positions onto 1..k for the image sizes k the instance lists."""
+    if op == "marg" and inst.get("FIBK"):
+        import itertools
+        n = len(D)
+        return [f for k in sorted(set(inst["FIBK"])) if 1 <= k <= n
+                for f in itertools.product(range(1, k + 1), repeat=n) if len(set(f)) == k]
+    return list(range(1, menu(inst, op) + 1))
+
+
 def magnitude(*dists):
     L, tot = 1, F(0)
     for D in dists:
@@ -372,7 +395,8 @@ def o_tree(inst):
         for op in OPS:
             if op not in inst.get("OPS", OPS):
                 continue
-            for j in range(menu(inst, op)):
+            for key in menu_keys(inst, D, op):
+                j = key if isinstance(key, tuple) else key - 1
                 a = o_args(inst, D, op, j)
                 r = o_step(inst, D, sc, n, op, j)
                 if r is None:
@@ -399,7 +423,7 @@ def o_tree(inst):
                 else:
                     worst[0] = max(worst[0], magnitude(D, post, [obs], *extra))
                 tn2 = o_tiny_after(inst, D, tn, sc2, op, j, a, post)
-                rec(post, sc2, n + 1, chain + ((op, j + 1),), posts + [(post, obs, tn2)], tn2)
+                rec(post, sc2, n + 1, chain + ((op, key),), posts + [(post, obs, tn2)], tn2)
 
     D0 = o_distof(inst["init"])
     worst[0] = magnitude(D0)
@@ -462,6 +486,12 @@ def real_scores(rec, k, shift=0.0):
 
 
 DRIFT_VARIANTS = {"uniform_set", "uniform_keys"}
+
+
+def raw_object(prefix):
+    """True while the object at this chain prefix is still the initial object (only observations /
+    softmax re-constructions so far); after any other operation it is an ordinary DictDistribution."""
+    return all(o in ("shift", "expect") for o, _ in prefix)
 CLASS_OF = {"dict": "DictDistribution", "pairs": "DictDistribution.from_pairs", "table": "TableDistribution",
             "ptrow": "ProbabilityTable-row", "uniform_list": "UniformDistribution", "uniform_tuple": "UniformDistribution",
             "uniform_cls": "UniformDistribution", "uniform_set": "UniformDistribution[set]",
@@ -512,7 +542,7 @@ def real_step(case, obj, pre, op, j, salt, scores):
     inst, labels = case.inst, case.labels
     pos = {conc(e, labels): i for i, e in enumerate(pre)}
     if op == "marg":
-        tab = inst["F"][j]
+        tab = j if isinstance(j, tuple) else inst["F"][j]
         return obj.marginalize(lambda x: labels[at(tab, pos[x]) - 1])
     if op == "chain":
         tab = inst["K"][j]
@@ -615,7 +645,7 @@ def compare(case, obj, exp, *, ordered=True, outside=True, tol=None):
             viol.append(("prob", f"prob({conc(e, labels)!r}) = {q!r}, exact {exp[e]}"))
             break
     if outside:
-        for i in range(1, NA + 1):
+        for i in range(1, len(labels) + 1):
             if (i,) not in exp:
                 try:
                     q = obj.prob(labels[i - 1])
@@ -700,7 +730,7 @@ def judge(ctx, cases, *, corrupt=None, tamper=None, ndraws=None, corrupt_init=No
     per = [dict() for _ in cases]
     for r in res.records:
         i = r["iid"] - 1
-        chain = tuple((h["op"], h["j"]) for h in r["hist"])
+        chain = tuple((h["op"], tuple(h["j"]) if isinstance(h["j"], list) else h["j"]) for h in r["hist"])
         posts = []
         for h in r["hist"]:
             post = {ev_of(e): frac(p) for e, p in zip(h["post"]["ev"], h["post"]["p"])}
@@ -756,7 +786,7 @@ def replay_case(ctx, i, c, chains, traces, ndraws, corrupt, corrupt_init=None):
                 shape += "+wide-scores"
         sig = f"C11:{site}.{meth}{operand}:{clause}:{shape}"
         what = f"{site}.{meth}{operand} [{clause}] after {list(prefix)}: {text}"
-        if variant in DRIFT_VARIANTS:
+        if variant in DRIFT_VARIANTS and raw_object(prefix):
             observed(ctx, f"{site}.{meth}:{clause}")
             return
         case_ok = False
@@ -825,7 +855,8 @@ def replay_case(ctx, i, c, chains, traces, ndraws, corrupt, corrupt_init=None):
                     nodes[(v, prefix)] = (pobj, exp, scores)
                     continue
                 sc2 = [s + inst["C"][j - 1] for s in scores] if op == "shift" else scores
-                salt = (rngsalt + 7 * vi + 13 * k + j) % 1000003
+                jj = j if isinstance(j, tuple) else j - 1
+                salt = (rngsalt + 7 * vi + 13 * k + (sum(j) if isinstance(j, tuple) else j)) % 1000003
                 operand = ""
                 if op in ("joint", "and"):
                     operand = f"({CLASS_OF[operand_variant(inst['O'][j - 1], salt)]})"
@@ -833,7 +864,7 @@ def replay_case(ctx, i, c, chains, traces, ndraws, corrupt, corrupt_init=None):
                     o = inst["O"][inst["MX"][j - 1]["o"] - 1]
                     operand = f"({CLASS_OF[operand_variant(o, salt)]})"
                 try:
-                    out = real_step(c, pobj, pre, op, j - 1, salt, sc2)
+                    out = real_step(c, pobj, pre, op, jj, salt, sc2)
                     ctx.evaluations += 1
                 except Exception as e:                  # noqa: BLE001
                     report(v, chain[:k - 1], op, operand, "error", f"raised {type(e).__name__}: {e}", pre, j)
@@ -895,7 +926,7 @@ def replay_case(ctx, i, c, chains, traces, ndraws, corrupt, corrupt_init=None):
         if err is not None:
             if not positive and len(exp) != 1:
                 ctx.skip("sampling undefined: no event of positive probability")
-            elif v in DRIFT_VARIANTS:
+            elif v in DRIFT_VARIANTS and raw_object(prefix):
                 observed(ctx, f"{site}.sample raised {type(err).__name__}")
             else:
                 case_ok = False
@@ -948,14 +979,14 @@ def validate_traces(ctx, cases, traces):
             e = ev_of(r["event"])
             kind = "one-point" if len(r["dist"]["ev"]) == 1 else ("zero-probability-event" if any(
                 ev_of(x) == e for x in r["dist"]["ev"]) else "event-outside-support")
-            if t["variant"] in DRIFT_VARIANTS:
+            if t["variant"] in DRIFT_VARIANTS and raw_object(t["prefix"]):
                 observed(ctx, f"{t['site']}.sample:{kind}")
                 continue
             ctx.violation(f"C11:{t['site']}.sample:{kind}:{t['shape']}",
                           f"{t['site']}.sample returned {conc(e, c.labels)!r} at draw {r['at']}: not an enabled Sample of the model "
                           f"(distribution {r['dist']})", case)
         elif r["verdict"] == "rejected-seed":
-            if t["variant"] in DRIFT_VARIANTS:
+            if t["variant"] in DRIFT_VARIANTS and raw_object(t["prefix"]):
                 observed(ctx, f"{t['site']}.sample:seeded sequences differ")
                 continue
             ctx.violation(f"C11:{t['site']}.sample:seeded-sequences-differ:{t['shape']}",
@@ -980,7 +1011,7 @@ def make_near_cases(rng, n, ctx=None):
     Chains of 2 operations among marginalize, scaled mixture, normalize, expectation; operands and
     mixture weights dyadic so that the exact arithmetic of the spec stays inside 30 bits."""
     cases = []
-    pools = sorted(POOLS)
+    pools = ROT_POOLS
     while len(cases) < n:
         w, d = NEAR_WEIGHTS[len(cases) % len(NEAR_WEIGHTS)]
         inst = make_instance(rng, 2)
@@ -1027,7 +1058,7 @@ def make_rare_cases(rng, n, ctx=None):
     the operand of a conjunction (also normalize / marginalize), incl. measures all of whose events are rare.
     The exact products stay inside 30 bits through the cross-cancelling product of the spec."""
     cases = []
-    pools = sorted(POOLS)
+    pools = ROT_POOLS
     tries = 0
     while len(cases) < n and tries < 20 * n:
         tries += 1
@@ -1074,7 +1105,7 @@ CFG_INT = "INIT Init\nNEXT Next\nCHECK_DEADLOCK FALSE\nINVARIANT Emit\nINVARIANT
 
 def make_int_softmax_cases(rng, n):
     cases = []
-    pools = sorted(POOLS)
+    pools = ROT_POOLS
     for i in range(n):
         size = rng.choice([2, 3, 3, 4])
         k = [rng.randint(-3, 3) for _ in range(size)]
@@ -1161,9 +1192,43 @@ def judge_int_softmax(ctx, cases):
                 ctx.nontrivial(f"intsoftmax:{digest(c)}")
 
 
+def make_fibre_cases(rng, tier):
+    """Marginalising with every way of merging the support: for each support size n every surjection onto
+    1..k is enumerated by TLC (all k for n <= 5; k | n for n = 6, the sizes at which equal fibres exist), on
+    initial distributions of every kind: uniform (list / tuple / classmethod / dict / table variants),
+    dict / table / from_pairs with arbitrary weights incl. zeros, deterministic.  One operation per chain."""
+    cases = []
+    plan = [("uniform", 2), ("uniform", 3), ("uniform", 4), ("uniform", 5), ("uniform", 6), ("dict", 3), ("table", 4),
+            ("dict", 5), ("pairs", 4), ("det", 1), ("softmax", 4)]
+    if tier != "quick":
+        plan = plan * 3 + [("dict", 6), ("table", 6)]
+    for idx, (kind, n) in enumerate(plan):
+        inst = make_instance(rng, 1)
+        atoms = rng.sample(range(1, 7), n)
+        rec = {"kind": kind, "ev": [[a] for a in atoms], "w": [1] * n, "d": 1, "k": [0] * n, "ni": [0] * n}
+        if kind in ("dict", "table", "pairs"):
+            rec["w"] = [rng.choice([0, 1, 1, 2, 3]) for _ in range(n)]
+            if sum(rec["w"]) == 0:
+                rec["w"][0] = 1
+            rec["d"] = rng.choice([sum(rec["w"]), 4])
+        elif kind == "softmax":
+            rec["k"] = [rng.randint(-1, 1) for _ in range(n)]
+        inst["init"] = rec
+        inst["NA"] = 6
+        inst["OPS"] = ["marg"]
+        inst["FIBK"] = list(range(1, n + 1)) if n <= 5 else [k for k in range(1, n + 1) if n % k == 0]
+        fix_inst(inst)
+        _, mag = o_tree(inst)
+        if mag >= MAGLIM:
+            raise TLCFailure("fibre family member beyond the magnitude bound")
+        pool = POOLS6[idx % len(POOLS6)]
+        cases.append(Case(inst, pool, rng.sample(range(6), 6)))
+    return cases
+
+
 def make_cases(rng, n, depth, ctx=None):
     cases = []
-    pools = sorted(POOLS)
+    pools = ROT_POOLS
     while len(cases) < n:
         inst = make_instance(rng, depth)
         # cycle the initial kinds so that every kind is present in every tier
@@ -1194,7 +1259,7 @@ def make_exhaustive(rng, ctx=None):
     `total` (normalised) and 4 (not normalised), each with one random set of menus, DEPTH 2."""
     import itertools
     cases = []
-    pools = sorted(POOLS)
+    pools = ROT_POOLS
     for size in (1, 2, 3):
         for w in itertools.product(range(4), repeat=size):
             for d in sorted({sum(w) or 1, 4}):
@@ -1228,7 +1293,7 @@ def run(ctx):
         "softmax scores are integer multiples of ln 2 (exact rational probabilities) plus three arbitrary real shifts",
         "sampling clauses are judged on the recorded draws only (60 / 200 per object and seed)"]
     if ctx.tier == "quick":
-        plan = [(2, 110)]
+        plan = [(2, 96)]
     else:
         plan = [(2, 500), (3, 40)]
     if ctx.tier == "thorough":
@@ -1236,6 +1301,9 @@ def run(ctx):
         ctx.count("exhaustive_initial_measures", len(cases))
         for k in range(0, len(cases), 150):
             judge(ctx, cases[k:k + 150])
+    fib = make_fibre_cases(rng, ctx.tier)
+    ctx.count("fibre_family_instances", len(fib))
+    judge(ctx, fib)
     ints = make_int_softmax_cases(rng, 14 if ctx.tier == "quick" else 150)
     ctx.count("integer_score_softmax_instances", len(ints))
     judge_int_softmax(ctx, ints)
